@@ -149,7 +149,8 @@ def bad_value(v, depth=0):
 
 TXN = {'description': 'UBER EATS REF:12345', 'amount': 42.5, 'date': '2024-06-15', 'field': {'memo': 'PROJ:alpha', 'type': 'WIRE'}, 'source': 'Amex',
        'location': 'Seattle, WA'}
-ROWS = {'orders': [{'item': 'Book', 'amount': 42.5, 'date': '2024-06-14', 'qty': 1}, {'item': 'Pen', 'amount': 3.0, 'date': '2024-06-01', 'qty': 2}]}
+ROWS = {'orders': [{'item': 'Book', 'amount': 42.5, 'date': '2024-06-14', 'qty': 1}, {'item': 'Pen', 'amount': 3.0, 'date': '2024-06-01', 'qty': 2},
+                   {'item': 'Short row', 'amount': 1.0}]}  # the last row comes from a short CSV line: it lacks columns the first row has
 VARS = {'m': [{'item': 'Book', 'amount': 42.5}], 'label': 'UBER', 'is_large': True}
 
 
@@ -334,7 +335,7 @@ def attr_names():
     return sorted(names)
 
 
-RECEIVERS = ['description', 'amount', 'date', 'source', 'month', 'field.memo', 'txn.amount', 'txn.date', 'txn.description', 'txn', 'field', '"lit"', '5', '2.5', 'True',
+RECEIVERS = ['orders[2]', 'orders[-1]', 'description', 'amount', 'date', 'source', 'month', 'field.memo', 'txn.amount', 'txn.date', 'txn.description', 'txn', 'field', '"lit"', '5', '2.5', 'True',
              'None', 'orders', 'orders[0]', 'orders[0].item', 'orders[0].date', '[r for r in orders]', '(r for r in orders)', 'trim()', 'contains', 'len', 'abs',
              '(x := description)', '(amount > 1)', 'm', 'm[0]', 'label', '(date)', 'field.date', 'next(r.date for r in orders)', '[r.date for r in orders][0]']
 
@@ -423,6 +424,8 @@ NODE_SNIPPETS = {
     'percent_format': '"%s" % description', 'percent_attr': '"%(amount)s" % orders[0]',
     # literals the evaluator converts while comparing (ISO date strings, numbers as text): the parsed expression must stay as written
     'date_compare': 'date >= "2024-01-01"', 'date_compare_rev': '"2024-01-01" <= date', 'date_eq': 'txn.date == "2024-03-05"', 'date_chain': '"2024-01-01" <= date <= "2024-12-31"',
+    'short_row_attr': 'orders[2].qty', 'short_row_attr2': 'orders[-1].date', 'short_row_comp': '[r.qty for r in orders]', 'short_row_any': 'any(r.qty == 2 for r in orders)',
+    'short_row_exists': 'exists(orders[2].qty)', 'short_row_len': 'len([r for r in orders if r.date])',
     'row_date_compare': '[r for r in orders if r.date > "2024-01-01"]', 'date_in': 'date in ["2024-03-05"]', 'date_bad': 'date > "not-a-date"', 'month_compare': 'month == "3"',
 }
 for _name in dir(ast):
